@@ -11,7 +11,7 @@ from props.C15 import Machine
 from props.C16 import _enc_dict
 
 REQUIRED_THEOREMS = ['Usid.C05.returned_is_genuine', 'Usid.C05.resume_is_most_recent_partial', 'Usid.C05.else_fresh',
-                     'Usid.C05.malformed_never_used', 'Usid.C05.override_fresh_and_frame']
+                     'Usid.C05.malformed_never_used', 'Usid.C05.override_fresh_and_frame', 'Usid.C05.complete_iff_nothing_pending']
 RULE = ('[also: histories written by the library itself for two datasets of the same name in different groups, results next to the source / in a common group / in another file] [also: float / string lists and booleans as parameters, one value against a list of values, a recorded source reference pointing at this or at ANOTHER dataset of the file, verbose=True; no group other than the reused one may change] histories of 0-5 earlier result groups (built with raw h5py) over dataset names {Raw, Raw_Data, Data, aw} x tools '
         '{Fit, Fitter, it, Fit_x}, parameters equal or differing in one value (including a large whole number off by one and a float off by a relative 4e-8)/type/length/key, progress records of every '
         'kind (complete, partial, legacy attribute only, neither, wrong dtype/length/rank, non-dataset, values outside '
